@@ -52,7 +52,24 @@ class CaseTimeout(BaseException):
     seconds in case a bare `except:` does."""
 
 
+_HANG_SITE = [None]
+
+
 def _alarm(signum, frame):
+    # remember where the case was when the watchdog fired: innermost frame inside the
+    # repository's sources (site) -- lets a triage tell a hang in the code under test
+    # from a slow oracle
+    site, inner, f = None, None, frame
+    while f is not None:
+        fn = f.f_code.co_filename
+        here = f"{os.path.basename(fn)}:{f.f_code.co_name}"
+        if inner is None:
+            inner = here
+        if site is None and "/WallGo/" in fn:
+            site = here
+        f = f.f_back
+    if _HANG_SITE[0] is None:
+        _HANG_SITE[0] = f"in {site or '-'} (innermost {inner})"
     raise CaseTimeout()
 
 
@@ -100,13 +117,14 @@ def _worker_init(modname):
 def _run_one(mod, case, timeout):
     t0 = time.time()
     signal.signal(signal.SIGALRM, _alarm)
+    _HANG_SITE[0] = None
     signal.setitimer(signal.ITIMER_REAL, float(timeout), 5.0)
     try:
         res = mod.run_case(case)
     except CaseTimeout:
         res = {"key": case.get("key", json.dumps(jsonable(case), sort_keys=True)[:200]),
                "cls": "timeout", "nontrivial": False, "obs": {}, "viol": [],
-               "inconclusive": f"watchdog {timeout}s", "mon": {}}
+               "inconclusive": f"watchdog {timeout}s {_HANG_SITE[0]}", "mon": {}}
     except Exception as exc:  # harness failure, not a verdict on the code
         res = {"key": case.get("key", json.dumps(jsonable(case), sort_keys=True)[:200]),
                "cls": "harness-error", "nontrivial": False, "obs": {}, "viol": [],
@@ -192,7 +210,7 @@ def main_check(pid, tier, seed, jobs=None, replay=None, limit=None):
     t0 = time.time()
     env.ensure_deps()
     mod = importlib.import_module(f"wgverif.checks.{pid}")
-    timeout = getattr(mod, "CASE_TIMEOUT", 120)
+    timeout = float(os.environ.get("WGVERIF_CASE_TIMEOUT") or getattr(mod, "CASE_TIMEOUT", 120))
     chunk = getattr(mod, "CHUNK", 1)
     if jobs is None:
         jobs = int(os.environ.get("VERIF_JOBS", os.cpu_count() or 4))
@@ -240,7 +258,7 @@ def main_check(pid, tier, seed, jobs=None, replay=None, limit=None):
             mon[k] += v
         cl = r["cls"] if isinstance(r["cls"], list) else [r["cls"]]
         if r["inconclusive"]:
-            inconc[str(r["inconclusive"])[:80]] += 1
+            inconc[str(r["inconclusive"])[:120]] += 1
         else:
             for c in cl:
                 classes[c] += 1
@@ -286,6 +304,14 @@ def main_check(pid, tier, seed, jobs=None, replay=None, limit=None):
     if not samples and results:
         samples.append({"case": results[0]["case"], "obs": results[0]["obs"],
                         "inconclusive": results[0]["inconclusive"]})
+    # keep the inputs of watchdog cases: a hang inside the code under test is triaged from these
+    hung = [r for r in results if str(r["inconclusive"] or "").startswith("watchdog")]
+    if hung:
+        os.makedirs(REPLAY_DIR, exist_ok=True)
+        with open(os.path.join(REPLAY_DIR, f"{pid}_{tier}_s{seed}_watchdog-cases.json"), "w") as fh:
+            json.dump({"property": pid, "tier": tier, "seed": seed,
+                       "cases": [{"case": r["case"], "reason": r["inconclusive"]}
+                                 for r in hung[:50]]}, fh, indent=1)
     cov = {
         "evaluations": len(results),
         "distinct_nontrivial": len(keys),
